@@ -229,7 +229,11 @@ func (s *Solver) intBody(t *Term) string {
 			panic(intUnsupported{"bitwise and"})
 		}
 	case OpOr, OpXor:
-		panic(intUnsupported{"bitwise or/xor"})
+		d := t.String()
+		if len(d) > 300 {
+			d = d[:300] + "..."
+		}
+		panic(intUnsupported{"bitwise or/xor: " + d})
 	case OpBVNot:
 		txt = fmt.Sprintf("(- %s %s)", sub(Mb, big.NewInt(1)).String(), r(0))
 	case OpNeg:
